@@ -51,6 +51,7 @@ from .values import (
     SStr,
     CompDictV,
     LazyDictV,
+    LazySetV,
     SymListV,
     SymSet,
     Unit,
@@ -64,6 +65,15 @@ from .values import (
     mk_int,
     zint,
 )
+
+
+class StarSeq:
+    """*args of symbolic length passed to asyncio.gather"""
+
+    __slots__ = ("seq",)
+
+    def __init__(self, seq):
+        self.seq = seq
 
 
 class RangeV:
@@ -374,6 +384,8 @@ def isinst(I, v, cls):
         return name == "dict"
     if isinstance(v, SetV):
         return name == ("frozenset" if v.frozen else "set")
+    if isinstance(v, LazySetV):
+        return name == "set"
     if v is None:
         return name == "NoneType"
     if isinstance(v, ClassV):
@@ -424,6 +436,8 @@ def length(I, v, node=None):
         return mk_int(z3.If(zint(d) > 0, zint(d), z3.IntVal(0)))
     if isinstance(v, ItemsView):
         return length(I, v.d, node)
+    if isinstance(v, LazySetV):
+        v = v.d
     if isinstance(v, LazyDictV):
         from . import lazydict
 
@@ -456,6 +470,8 @@ def iterate(I, v, node=None):
         for p in list(v.pairs):
             yield p[0]
         return
+    if isinstance(v, LazySetV):
+        v = v.d
     if isinstance(v, LazyDictV):
         v = ItemsView(v, "keys")
     if isinstance(v, ItemsView) and isinstance(v.d, LazyDictV):
@@ -754,6 +770,8 @@ def contains(I, container, x, node=None):
         return z3.Select(container.arr, zint(int_term(x)))
     if isinstance(container, MapV):
         return map_contains(I, container, x)
+    if isinstance(container, LazySetV):
+        container = container.d
     if isinstance(container, LazyDictV):
         from . import lazydict
 
@@ -1349,7 +1367,7 @@ def map_delitem(I, m, key, node=None):
 
 
 def value_getattr(I, obj, name, node):
-    if isinstance(obj, (ListV, SymListV, CompDictV, LazyDictV, DictV, SetV, SBytes, BytearrayV, SStr, str, tuple, MapV, SeqV, LoggerV, LockV, StructV, ItemsView, CoroV, bytes, int, SInt)):
+    if isinstance(obj, (ListV, SymListV, CompDictV, LazyDictV, LazySetV, DictV, SetV, SBytes, BytearrayV, SStr, str, tuple, MapV, SeqV, LoggerV, LockV, StructV, ItemsView, CoroV, bytes, int, SInt)):
         if isinstance(obj, StructV):
             if name == "size":
                 return obj.size
@@ -1515,6 +1533,24 @@ def call_method(I, obj, name, args, kwargs, node):
             return None
     if isinstance(obj, MapV):
         return I.ghost.map_method(obj, name, args, kwargs, node)
+    if isinstance(obj, LazySetV):
+        from . import lazydict
+
+        if name == "add":
+            lazydict.setitem(I, obj.d, args[0], True, node)
+            return None
+        if name in ("remove", "discard"):
+            e = lazydict.lookup(I, obj.d, args[0], node)
+            if not e[2]:
+                if name == "remove":
+                    I.throw("KeyError", args[0], node=node)
+                return None
+            e[1], e[2] = None, False
+            return None
+        if name == "clear":
+            lazydict.clear(I, obj.d)
+            return None
+        raise OutsideSubset(f"set.{name} on a set with unbounded contents")
     if isinstance(obj, LazyDictV):
         from . import lazydict
 
